@@ -259,7 +259,7 @@ func init() {
 	register(ruleBCE, ruleUnmarshalErr, rulePanicUnmarshal)
 	addProp(&PropSpec{
 		ID:    "C18",
-		Rules: []string{"R-BCE", "R-PANIC-UNMARSHAL", "R-UNMARSHAL-ERR", "R-LAYOUT", "R-CTXZONE"},
+		Rules: []string{"R-BCE", "R-PANIC-UNMARSHAL", "R-UNMARSHAL-ERR", "R-LAYOUT", "R-CTXZONE", "R-GLOBALS"},
 		Explanation: "Totality of UnmarshalJSON on hostile input, decided with the Go compiler's own prove pass as the decision procedure for index safety: " +
 			"every bounds check the compiler cannot discharge in a function reachable from the five UnmarshalJSON methods is a violation; explicit panics are enumerated over the call graph; returned errors wrap ErrSQLType. " +
 			"Only the 'hostile input returns an error instead of panicking' clause of C18 is decided.",
@@ -438,6 +438,65 @@ var ruleLayout = &Rule{
 			} else {
 				out.viol(key, "path/types", "ParseTime", "no ParseTime branch that constructs "+name+" uses a layout accepting "+outL+" (has "+strings.Join(sortedKeys(byType[name]), ", ")+")")
 			}
+		}
+		// length shortcuts of the parser admit every String() output
+		maxOut := 0
+		for _, d := range p.A.DateTimeImpls {
+			for l := range layoutArg(p.ssaFunc(pkgTypes, "*"+d.Obj().Name()+".String"), "time.Format", 1) {
+				if len(l) > maxOut {
+					maxOut = len(l)
+				}
+			}
+		}
+		if pt != nil && maxOut > 0 {
+			nlen := 0
+			for _, f := range moduleFuncs(p.reachFrom([]*ssa.Function{pt}).Set) {
+				if fnPkgPath(f) != pkgTypes || f.Blocks == nil {
+					continue
+				}
+				for _, b := range f.Blocks {
+					iff, ok := b.Instrs[len(b.Instrs)-1].(*ssa.If)
+					if !ok {
+						continue
+					}
+					bo, ok := iff.Cond.(*ssa.BinOp)
+					if !ok {
+						continue
+					}
+					lc, ok := bo.X.(*ssa.Call)
+					if !ok {
+						continue
+					}
+					bi, ok := lc.Call.Value.(*ssa.Builtin)
+					if !ok || bi.Name() != "len" {
+						continue
+					}
+					if _, isParam := lc.Call.Args[0].(*ssa.Parameter); !isParam || !types.Identical(lc.Call.Args[0].Type(), types.Typ[types.String]) {
+						continue
+					}
+					k, ok := constInt(bo.Y)
+					if !ok {
+						continue
+					}
+					var rejectsAbove int64 = -1 // inputs longer than this are rejected
+					switch bo.Op {
+					case token.GTR:
+						rejectsAbove = k
+					case token.GEQ:
+						rejectsAbove = k - 1
+					default:
+						continue
+					}
+					nlen++
+					key := fmt.Sprintf("%s: upper length shortcut (> %d)", fnName(f), rejectsAbove)
+					if rejectsAbove >= int64(maxOut) {
+						out.ok(key, p.pos(iff.Pos()), fnName(f), fmt.Sprintf("admits the longest String() output (%d bytes)", maxOut))
+					} else {
+						out.viol(key, p.pos(iff.Pos()), fnName(f), fmt.Sprintf("input longer than %d bytes is rejected before any layout is tried, but String() prints up to %d bytes (nine fractional digits and a zone offset): ParseTime(String(v)) fails for such values", rejectsAbove, maxOut))
+					}
+				}
+			}
+			out.Counts["length_shortcuts_in_the_parser"] = nlen
 		}
 		out.Counts["datetime_types"] = n
 		out.Floors["datetime_types"] = 5
